@@ -12,7 +12,7 @@ LEVEL = 'fault_enumeration'
 RULE = ('enumeration of 13 injections (success; malformed bytes; bad envelope; unknown method; invalid argument; '
         'method_call listener raising Fault/non-Fault at app/service/method level; method_return_object listener raising; '
         'function raising Fault/non-Fault; unserialisable return) x 9 protocol configurations x {ServerBase, WSGI} x 4 '
-        'listener layouts (application only; all levels; every listener registered twice; listeners inherited from a grandparent and two unrelated bases); non-trivial when the application-level trace contains created and closed; distinct by '
+        'listener layouts (application only; all levels; every listener registered twice; listeners inherited from a grandparent and two unrelated bases; listeners registered at every level after a first call); non-trivial when the application-level trace contains created and closed; distinct by '
         '(protocol, driver, layout, injection, observed trace shape).')
 ASSUMPTIONS = [
     'relative order BETWEEN managers (application vs service vs method) is not stated by the property and not judged',
@@ -35,7 +35,7 @@ INJECTIONS = ['success', 'malformed', 'bad_envelope', 'unknown_method', 'invalid
               'call_listener_fault@app', 'call_listener_exc@app', 'call_listener_fault@service',
               'call_listener_exc@method', 'return_listener_fault@app', 'return_listener_exc@service',
               'function_fault', 'function_exc', 'unserialisable_return']
-LAYOUTS = ('app_only', 'all_levels', 'duplicates', 'diamond')
+LAYOUTS = ('app_only', 'all_levels', 'duplicates', 'diamond', 'late')
 INHERITED = ('service_base', 'service_grand', 'service_base2')
 
 
@@ -86,6 +86,9 @@ def build(kind, layout, injection, trace):
 
     method_mgr = EventManager(None)
     sub_events = [e for e in EVENTS if e not in ('method_context_created', 'method_context_closed')]
+    late = layout == 'late'
+    if late:
+        layout = 'all_levels'
     multi = layout != 'app_only'
     dup = layout == 'duplicates'
 
@@ -148,6 +151,13 @@ def build(kind, layout, injection, trace):
     for p, pname in ((inp, 'in_protocol'), (outp, 'out_protocol')):
         for ev in ('before_deserialize', 'after_deserialize', 'before_serialize', 'after_serialize'):
             p.event_manager.add_listener(ev, rec(pname, 0)(ev))
+
+    def attach_late():
+        # listeners registered after the application has already served a call
+        attach(Svc.event_manager, 'service_late', sub_events, 1, False)
+        attach(method_mgr, 'method_late', sub_events, 1, False)
+        attach(app.event_manager, 'app_late', sub_events, 1, False)
+    app._vf_attach_late = attach_late
     return app
 
 
@@ -208,6 +218,8 @@ def judge(kind, driver, layout, injection, trace, fault_sent, escaped):
         levels += [('service_base', 1), ('service', 2), ('method', 2)]
     if layout == 'diamond':
         levels += [('service_grand', 1), ('service_base2', 1)]
+    if layout == 'late':
+        levels += [('service_late', 1), ('method_late', 1), ('app_late', 1)]
     dispatched = bool(positions('app', 'call')) or any(positions(l, e) for l, _ in levels[1:] for e in SHORT.values())
     for level, nl in levels:
         for lid in range(nl):
@@ -239,9 +251,10 @@ def judge(kind, driver, layout, injection, trace, fault_sent, escaped):
                 continue
             raised_on = set(e[1] for e in seq if e[0] == 'raiser')
             inj_level = injection.partition('@')[2]
-            same_mgr = (level == inj_level) or (level in INHERITED and inj_level == 'service')
-            if 'return_object' in raised_on and not same_mgr:
-                pass    # another manager's listener aborted the event; inter-manager order is not judged
+            same_mgr = (level.replace('_late', '') == inj_level) or (level in INHERITED and inj_level == 'service')
+            if 'return_object' in raised_on and (not same_mgr or level.endswith('_late')):
+                pass    # another manager's listener aborted the event (inter-manager order is not judged), or this listener was
+                #         registered after the raising one on the same manager and cannot see the aborted event
             elif bool(ro) != bool(user_return):
                 V.append(('return_object_iff_returned', '%s listener %d: method_return_object fired=%s, function returned normally=%s' % (level, lid, bool(ro), bool(user_return))))
             if inj != 'unserialisable_return' and bool(eo) != bool(fault_sent):
@@ -307,6 +320,12 @@ def run_case(R, kind, driver, layout, injection):
         w = WsgiApplication(app)
         for ev in ('wsgi_call', 'wsgi_return', 'wsgi_exception', 'wsgi_close'):
             w.event_manager.add_listener(ev, (lambda e: (lambda ctx: trace.add('transport', e, 0)))(ev))
+        if layout == 'late':
+            # first call (not judged), then more listeners are registered, then the judged call
+            env, inp = drive.make_environ(req['method'], req['path'], req['qs'], req['body'], req['content_type'])
+            drive.call_wsgi(w, env, inp)
+            app._vf_attach_late()
+            del trace.seq[:]
         env, inp = drive.make_environ(req['method'], req['path'], req['qs'], req['body'], req['content_type'])
         r = drive.call_wsgi(w, env, inp)
         escaped = r.exc
@@ -328,6 +347,10 @@ def run_case(R, kind, driver, layout, injection):
         if kind in ('httprpc', 'httprpc-json'):
             R.skip('HttpRpc needs an HTTP transport')
             return
+        if layout == 'late':
+            drive.drive_server(srv, req['body'])
+            app._vf_attach_late()
+            del trace.seq[:]
         out = drive.drive_server(srv, req['body'])
         escaped = out.exc
         if escaped is None:
